@@ -24,6 +24,11 @@ theorem intersects_correct (a b : List Range) (ha : WF a) (hb : WF b) :
   rw [← overlapsAny_iff]
   simp
 
+/-- the same against the executable specification the check applies to the real function's answers -/
+theorem intersects_eq_spec (a b : List Range) (ha : WF a) (hb : WF b) :
+    intersects a b = some (RangeOverlap.overlapsAny a b) := by
+  rw [intersects_eq a b ha hb, overlapsAny_eq_spec]
+
 /-- The sweep is *not* correct for unsorted lists: it discards `(0,5)` without comparing it. -/
 theorem intersects_unsorted_witness :
     intersects [(10, 20), (0, 5)] [(1, 2)] = some false ∧
